@@ -128,7 +128,8 @@ def c02 (v : StepView) : Verdict :=
   -- interrupted commands (injected I/O fault or crash) are outside C02's quantifier
   let interrupted := (optNat v.step "crash").isSome || (optNat v.step "fault").isSome
   if !interrupted && forestWF preLs && !forestWF postLs then bad ("forest broken after " ++ c) else
-  if !interrupted && forestWF preLs && getStr (getObj v.postJ "layers") "cls" != "ok" then
+  if !interrupted && forestWF preLs && Fs.isDir v.post.fs v.cfg.layerdirs && Fs.isDir v.pre.fs v.cfg.layerdirs
+      && getStr (getObj v.postJ "layers") "cls" != "ok" then
     bad "installation can no longer be listed" else
   if !plain v || !isStructural c then fine ["c02:wf-only"] else
   match mustReject v with
